@@ -1,9 +1,9 @@
 (* C02 - a published message reaches the wire intact and correctly framed.
    This file only pins statements. *)
-From Amq Require Import Lib.Base Gen.Consts Model.Publish Proofs.Publish Lib.RsResult Gen.SrcLimit Proofs.PublishSrc.
+From Amq Require Import Lib.Base Gen.Consts Model.Publish Proofs.Publish Lib.RsResult Gen.SrcLimit Proofs.PublishSrc Lib.RsVal Gen.SrcSend Proofs.SendContentSrc.
 
 (* for EVERY body and every positive payload limit: the body frames' payloads concatenate to exactly the body *)
-Theorem C02_concat : forall (fm : N) (body : bytes), 0 < fm -> List.concat (body_chunks fm body) = body.
+Theorem C02_concat : forall (fm : N) (body : bytes), 0 < fm -> concat (body_chunks fm body) = body.
 Proof. exact body_chunks_concat. Qed.
 
 (* every body frame is non-empty and at most the limit long *)
@@ -31,12 +31,16 @@ Theorem C02_limit_pos : forall frame_max : N, frame_max = 0 \/ c_frame_min_size 
 Proof. exact payload_limit_pos. Qed.
 
 (* one publish: Basic.Publish with exactly the given exchange, routing key, mandatory and immediate; one header of class 60 announcing exactly the body length with the given properties; then non-empty body frames concatenating to the body, none if it is empty *)
-Theorem C02_publish : forall (frame_max : N) (p : publish), frame_max = 0 \/ c_frame_min_size <= frame_max -> exists bodies : list bytes, publish_frames frame_max p = PMethod (p_exchange p) (p_rk p) (p_mandatory p) (p_immediate p) :: PHeader 60 (N.of_nat (Datatypes.length (p_body p))) (p_props p) :: map PBody bodies /\ List.concat bodies = p_body p /\ Forall (fun c : list N => c <> []) bodies /\ (p_body p = [] -> bodies = []).
+Theorem C02_publish : forall (frame_max : N) (p : publish), frame_max = 0 \/ c_frame_min_size <= frame_max -> exists bodies : list bytes, publish_frames frame_max p = PMethod (p_exchange p) (p_rk p) (p_mandatory p) (p_immediate p) :: PHeader 60 (N.of_nat (Datatypes.length (p_body p))) (p_props p) :: map PBody bodies /\ concat bodies = p_body p /\ Forall (fun c : list N => c <> []) bodies /\ (p_body p = [] -> bodies = []).
 Proof. exact publish_frames_spec. Qed.
 
 (* THE MODEL IS THE SOURCE, for the body limit: Channel0Handle::new (src/io_loop/channel_handle.rs) is translated into coq/Gen/Src.v on every run by tools/rs2v.py, and what it stores as the handle's frame_max is exactly the model's payload_limit (0 = no limit; the frame overhead from the compiled crate taken off) for every value; C02_frame_size is about that limit *)
 Theorem C02_limit_source_is_model : forall frame_max : N, gen_Channel0Handle_new frame_max = RsOk "Channel0Handle" [("frame_max", payload_limit frame_max)].
 Proof. exact limit_source_is_model. Qed.
+
+(* THE MODEL IS THE SOURCE: ChannelHandle::send_content of src/io_loop/channel_handle.rs - the loop that cuts a body into frames - as translated from the source text on every run (Gen/SrcSend.v, tools/rs2sm.py: the `while` loop is a recursive function on fuel), for EVERY body and every limit >= 1, hands the channel exactly the content header (class, the body's length, the properties) and then the chunks Model/Publish.v's body_chunks says, in order, and returns Ok - body_chunks is what C02_frames_bounded / C02_concat are about, the limit is Channel0Handle::new's (C02_limit_source_is_model). One unit of fuel per byte plus one is enough *)
+Theorem C02_send_content_source_is_model : forall (fm : N) (cid props : val) (body : list N) (log : list val), 1 <= fm -> gen_ChannelHandle_send_content ext_st_model (S (Datatypes.length body)) (enc_self fm log) (VBytes body) cid props = (enc_self fm (log ++ VC "header" [cid; VN (N.of_nat (Datatypes.length body)); props] :: map body_item (body_chunks fm body)), VC "Ok" [VC "()" []]).
+Proof. exact send_content_source_is_model. Qed.
 
 (* non-vacuity: a 10-byte body with frame_max 4096 is one frame; 4089 bytes are two (4088 + 1) *)
 Example C02_example :
@@ -44,15 +48,16 @@ Example C02_example :
   c_frame_min_size = 4096 /\ c_frame_overhead = 8.
 Proof. vm_compute. repeat split. Qed.
 
-Check C02_concat : forall (fm : N) (body : bytes), 0 < fm -> List.concat (body_chunks fm body) = body.
+Check C02_concat : forall (fm : N) (body : bytes), 0 < fm -> concat (body_chunks fm body) = body.
 Check C02_sizes : forall (fm : N) (body : bytes), 0 < fm -> Forall (fun c : list N => 0 < N.of_nat (Datatypes.length c) <= fm) (body_chunks fm body).
 Check C02_full : forall (fm : N) (body : bytes) (pre : list bytes) (c : bytes), 0 < fm -> body_chunks fm body = (pre ++ [c])%list -> Forall (fun x : list N => N.of_nat (Datatypes.length x) = fm) pre.
 Check C02_empty : forall fm : N, body_chunks fm [] = [].
 Check C02_count : forall (fm : N) (body : bytes), 0 < fm -> N.of_nat (Datatypes.length (body_chunks fm body)) = (N.of_nat (Datatypes.length body) + fm - 1) / fm.
 Check C02_frame_size : forall (frame_max : N) (body : bytes), c_frame_min_size <= frame_max -> Forall (fun c : list N => N.of_nat (Datatypes.length c) + c_frame_overhead <= frame_max) (body_chunks (payload_limit frame_max) body).
 Check C02_limit_pos : forall frame_max : N, frame_max = 0 \/ c_frame_min_size <= frame_max -> 0 < payload_limit frame_max.
-Check C02_publish : forall (frame_max : N) (p : publish), frame_max = 0 \/ c_frame_min_size <= frame_max -> exists bodies : list bytes, publish_frames frame_max p = PMethod (p_exchange p) (p_rk p) (p_mandatory p) (p_immediate p) :: PHeader 60 (N.of_nat (Datatypes.length (p_body p))) (p_props p) :: map PBody bodies /\ List.concat bodies = p_body p /\ Forall (fun c : list N => c <> []) bodies /\ (p_body p = [] -> bodies = []).
+Check C02_publish : forall (frame_max : N) (p : publish), frame_max = 0 \/ c_frame_min_size <= frame_max -> exists bodies : list bytes, publish_frames frame_max p = PMethod (p_exchange p) (p_rk p) (p_mandatory p) (p_immediate p) :: PHeader 60 (N.of_nat (Datatypes.length (p_body p))) (p_props p) :: map PBody bodies /\ concat bodies = p_body p /\ Forall (fun c : list N => c <> []) bodies /\ (p_body p = [] -> bodies = []).
 Check C02_limit_source_is_model : forall frame_max : N, gen_Channel0Handle_new frame_max = RsOk "Channel0Handle" [("frame_max", payload_limit frame_max)].
+Check C02_send_content_source_is_model : forall (fm : N) (cid props : val) (body : list N) (log : list val), 1 <= fm -> gen_ChannelHandle_send_content ext_st_model (S (Datatypes.length body)) (enc_self fm log) (VBytes body) cid props = (enc_self fm (log ++ VC "header" [cid; VN (N.of_nat (Datatypes.length body)); props] :: map body_item (body_chunks fm body)), VC "Ok" [VC "()" []]).
 
 Print Assumptions C02_concat.
 Print Assumptions C02_sizes.
@@ -63,4 +68,5 @@ Print Assumptions C02_frame_size.
 Print Assumptions C02_limit_pos.
 Print Assumptions C02_publish.
 Print Assumptions C02_limit_source_is_model.
+Print Assumptions C02_send_content_source_is_model.
 Print Assumptions C02_example.
